@@ -9,6 +9,7 @@ state / accepted event, i.e. every finite event sequence the LTS accepts (any nu
 message sizes, faults, timer firings, Close).
 -/
 import KafkaVerif.Lemmas.WriterSched
+import KafkaVerif.Gen.WriterConsts
 
 namespace KV.C08
 open KV KV.Writer
@@ -193,6 +194,35 @@ theorem queue_put_at_tail (cfg : Cfg) (s s' : State) (q b : Nat) (acc : Bool) (h
   rename_i _ pw hq _ P hP hg
   cases hs
   exact ⟨pw, P, hq, hP, hg.1, hg.2.2, by simp⟩
+
+/-! ### the decision logic of the model is the one in the source (regenerated on every run by go/extract/writer) -/
+
+/-- **full_matches_source** — the model's `Batch.full` is `(*writeBatch).full` as it stands in writer.go -/
+theorem full_matches_source (cfg : Cfg) (B : Batch) :
+    Gen.batchFull B.msgs.length B.bytes cfg.batchSize cfg.batchBytes = B.full cfg := by
+  simp [Gen.batchFull, Batch.full]
+
+/-- **nofit_matches_source** — the model's `Batch.nofit` is the refusal condition of `(*writeBatch).add` -/
+theorem nofit_matches_source (cfg : Cfg) (B : Batch) (size : Nat) :
+    Gen.batchNoFit B.msgs.length B.bytes size cfg.batchBytes = B.nofit cfg size := by
+  simp [Gen.batchNoFit, Batch.nofit]
+
+/-- **validation_matches_source** — `allFit` is the negation of WriteMessages' `messageTooLarge` condition for every message -/
+theorem validation_matches_source (cfg : Cfg) (msgs : List MsgSpec) :
+    allFit cfg msgs = msgs.all (fun m => !Gen.tooLarge m.size cfg.batchBytes) := by
+  unfold allFit
+  congr 1
+  funext m
+  simp only [Gen.tooLarge, gt_iff_lt]
+  by_cases h : m.size ≤ cfg.batchBytes
+  · simp [h, Nat.not_lt.mpr h]
+  · simp [h, Nat.lt_of_not_le h]
+
+/-- **chooseTopic_matches_source** — the model's topic rule is `(*Writer).chooseTopic` as it stands in writer.go -/
+theorem chooseTopic_matches_source (cfg : Cfg) (m : MsgSpec) :
+    Gen.chooseTopic cfg.topic m.topic = Writer.chooseTopic cfg m := by
+  unfold Gen.chooseTopic Writer.chooseTopic
+  by_cases hw : cfg.topic = "" <;> by_cases hm : m.topic = "" <;> simp [hw, hm]
 
 /-! ### non-vacuity: BatchSize 2, BatchBytes 100; three messages of 50, 50, 60 bytes: the first batch closes when
 full (2 messages = 100 bytes exactly), the third message waits for the timer -/
